@@ -168,26 +168,8 @@ def run(F, rep, tier, allfacts):
     cfg = CFG(f)
     where = "%s:%s" % (f["file"], f["line"])
     inner = call_blocks(f, IMPL + "instruction_inner$")
-    sc = call_blocks(f, r"DebugEval::should_continue$")
-    okflow = False
-    if len(inner) == 1 and len(sc) == 1:
-        bc = bool_consumers(f, sc[0])
-        if len(bc) == 1:
-            _, t, fl = bc[0]
-            # the false side may return without instruction_inner; the true side must reach it
-            bypass = cfg._reach_from([0], avoid={inner[0]})
-            rets = [b for b in cfg.exits("ret") if b in bypass]
-            # every bypassing return is only reachable via the false side of should_continue
-            only_false = all(cfg.dominates(fl, b) or b == fl for b in rets) if rets else True
-            # simpler sufficient test: from the true side, every path to a return passes instruction_inner
-            true_ok = cfg.must_pass([inner[0]], frm=t)
-            # and without the debugger (is_active false) as well
-            ia = call_blocks(f, r"Debugger::is_active$")
-            ok_inactive = False
-            if len(ia) == 1:
-                bi = bool_consumers(f, ia[0])
-                ok_inactive = len(bi) == 1 and cfg.must_pass([inner[0]], frm=bi[0][2])
-            okflow = true_ok and ok_inactive
+    dc = vm.debugger_bypass_cases(F, f)
+    okflow = len(inner) == 1 and dc is not None and dc["inactive"][0] and dc["continue"][0] and not dc["stop"][0]
     rep.check(okflow, "EXEC-path", "instruction_per_inner:bypass-only-when-!should_continue", where,
               "the only return that skips instruction_inner must be the debugger branch with should_continue() == false")
     n, f = F.find(r"^fuel_vm::state::debug::DebugEval::should_continue$", ["fuel_vm"], one=True)
